@@ -5,6 +5,8 @@ package scen
 import (
 	"context"
 	"fmt"
+	"os"
+	"strings"
 	"sync"
 	"time"
 
@@ -46,6 +48,18 @@ func (r *c28Run) Setup(s *sim.Sim) {
 	r.Callback = p.Bool()
 	r.lat = sim.Pick(p, 0, time.Millisecond, 5*time.Millisecond)
 	r.Latency = r.lat.String()
+	// slow server goroutines: the notification fan-out (ChangeNotification) is held
+	// for a while right before it hands a sampled value to the subscription
+	if p.Intn(2) == 0 {
+		s.SlowPermille = sim.Pick(p, 30, 100, 300)
+		s.SlowMax = 6
+		s.SlowDurs = []time.Duration{time.Millisecond, 20 * time.Millisecond, 200 * time.Millisecond}
+		s.SlowMatch = func(label string) bool {
+			// (holding the dispatcher itself makes PublishResponses late, which drives the client
+			// into the catalogued pause-after-failed-publish finding in most runs)
+			return strings.HasPrefix(label, "send:server.ChangeNotification")
+		}
+	}
 	for i := 0; i < r.Nodes; i++ {
 		if p.Intn(3) != 0 {
 			r.Initial = append(r.Initial, i)
@@ -104,6 +118,7 @@ func (r *c28Run) Main(s *sim.Sim) {
 	handle := func(m *monitor.DataChangeMessage) {
 		if m.Error != nil {
 			s.Probe("message-with-error")
+			s.Probe("message-with-error:" + m.Error.Error())
 			return
 		}
 		if m.DataValue == nil || m.Value == nil {
@@ -236,7 +251,10 @@ func (r *c28Run) Main(s *sim.Sim) {
 			if len(hist) > 1500 {
 				hist = "..." + hist[len(hist)-1500:]
 			}
-			if publishLoopPaused() {
+			if os.Getenv("DBG_C28") != "" && publishLoopPaused(mc) {
+				fmt.Fprintf(os.Stderr, "DBG paused: pause-calls=%d resume-calls=%d steps=%v removes/adds in plan: %v\n%s\n", s.Label("client.pauseSubscriptions"), s.Label("client.resumeSubscriptions"), len(r.Steps), r.Initial, clientStacks())
+			}
+			if publishLoopPaused(mc) {
 				s.Fail("C28", "no-convergence", "publish-loop-paused-with-live-subscription", "node n%d is monitored and holds %d, last delivered %d (known=%v): the client's publish loop sits in its paused state although a subscription exists; deliveries %s", i, cur, got, ok, hist)
 				return
 			}
